@@ -19,15 +19,26 @@ import hashlib
 
 from harness import common
 from harness.gen import metainfo as gen
+from harness.gen import metainfo_wide as wide
+from harness.gen import unitext
 from harness.impl import bencode_strict as bstrict
 from harness.impl import pyval
+from harness.impl import depthprobe
 
 RULE = ('documents = bencoded metainfo from a grammar (single/multi-file, extra keys at top level, in info and '
         'in file entries, nesting <= 6, empty containers, integers up to 10^4299, valid/invalid UTF-8 byte '
-        'strings, multi-byte keys incl. astral vs BMP-private-use) + structure/byte mutations of them; '
-        'non-trivial = satisfies the hypothesis of C05_dump_read (canonical, validate accepts, UTF-8 keys, '
-        'private in {0,1}, creation date representable) and has at least one of: non-UTF-8 byte string, '
-        'multi-byte key, integer >= 2^64, nesting >= 4, empty container; distinct = distinct input bytes')
+        'strings, multi-byte keys incl. astral vs BMP-private-use) + a wide-text pass (harness/gen/unitext.py: '
+        'non-NFC / non-NFD / non-NFKC text, composition exclusions, unassigned code points, noncharacters, non-BMP, '
+        'bidi and zero-width controls, case-mapping specials, edge white space and BOM, ill-formed UTF-8 incl. '
+        'WTF-8 surrogates inside well-formed text; in values and in keys, in name, path components, comment, source, '
+        'URLs, unknown fields at top level / in info / in file entries, normalisation-equivalent key groups in one '
+        'dict) + structure/byte mutations; depth probes = a torrent with one unknown field nested d levels (lists, '
+        'dicts, mixed, bushy; at top level, in info, in a file entry, below a list / a dict; leaf empty / int / text / '
+        'bytes / bigint) read and written with exactly B Python frames left, for the greatest d the reader accepts and '
+        'a ladder of depths below it; non-trivial = satisfies the hypothesis of C05_dump_read (canonical, validate '
+        'accepts, UTF-8 keys, private in {0,1}, creation date representable) and has at least one of: non-UTF-8 byte '
+        'string, multi-byte key, integer >= 2^64, nesting >= 4, empty container, a wide-text label, or (depth probe) '
+        'accepted by the reader at depth >= 16; distinct = distinct input bytes resp. distinct (family, budget, depth)')
 
 MATCHERS = {}
 
@@ -147,6 +158,8 @@ def gen_cases(ctx, n_docs, small_scope=True):
             opts['nopieces'] = True
             kind = 'no-pieces'
         md = gen.metainfo(r, opts)
+        if r.random() < 0.6:
+            wide.widen(r, md)
         if k >= 0.19 and k < 0.21:
             md[b'info'][b'pieces'] = r.choice([5, [b'x' * 20], {b'a': b'b'}, []])
             kind = 'pieces-not-bytes'
@@ -157,7 +170,7 @@ def gen_cases(ctx, n_docs, small_scope=True):
             md[b'info'] = r.choice([5, b'info', [], [md[b'info']]])
             kind = 'info-not-dict'
         x = bstrict.ser(md)
-        feats = gen.features(md)
+        feats = gen.features(md) | wide.wide_features(md)
         validate = r.random() < 0.8
         cases.append({'op': 'roundtrip', 'x': x.hex(), 'validate': validate, 'kind': kind, 'feats': sorted(feats)})
         cases.append({'op': 'parse', 'x': x.hex(), 'kind': 'parse/canonical'})
@@ -176,6 +189,7 @@ def gen_cases(ctx, n_docs, small_scope=True):
                               'feats': []})
     if not small_scope:
         return cases
+    cases.extend(curated_text_cases())
     # non-dict top-level values and tiny documents (exhaustive over a small alphabet)
     small = [b'', b'e', b'de', b'le', b'i0e', b'0:', b'd0:0:e', b'd1:ae', b'd4:infodee', b'd4:infoi1ee',
              b'd4:info0:e', b'd4:infod6:pieces0:ee', b'd13:creation datei0e4:infodee',
@@ -199,6 +213,26 @@ def gen_cases(ctx, n_docs, small_scope=True):
     return cases
 
 
+def curated_text_cases():
+    """small scope, exhaustive over the curated wide alphabet: every cluster of `unitext.CURATED` and every
+    ill-formed sequence of `unitext.INVALID` once in every text position of a minimal multi-file torrent
+    (name, path component, comment, source, unknown key and value at top level / in info / in a file entry /
+    in a nested dict and list)"""
+    out = []
+    items = [(c, s.encode('utf8')) for c, l in sorted(unitext.CURATED.items()) for s in l]
+    items += [('invalid', b) for b in unitext.INVALID]
+    for cls, b in items:
+        valid = cls != 'invalid'
+        key = b if valid else b'k'
+        f = {b'length': 20000, b'path': [b'd' + b, b], b'path.utf-8': [b], b'x' + key: b}
+        info = {b'name': b, b'piece length': gen.K16, b'pieces': bytes(range(20)) * 2, b'files': [f],
+                b'source': b, b'name.utf-8': b, key + b'!': [b, {key: b, b'a' + key: [b + b'a']}]}
+        md = {b'info': info, b'comment': b, b'created by': b + b' 1.0', key + b'?': {key: b, key + key: [b]}}
+        out.append({'op': 'roundtrip', 'x': bstrict.ser(md).hex(), 'validate': True, 'kind': 'curated-text/' + cls,
+                    'feats': sorted(gen.features(md) | wide.wide_features(md))})
+    return out
+
+
 def _load_corpus(ctx):
     import glob
     import json
@@ -212,6 +246,11 @@ def _load_corpus(ctx):
 
 NONTRIVIAL_FEATS = {'non-utf8-bytes', 'multibyte-key', 'bigint', 'depth>=4', 'empty-list', 'empty-dict',
                     'utf16-order-differs'}
+
+
+def _nontrivial(feats):
+    return bool(feats & NONTRIVIAL_FEATS) or any(
+        f.startswith(('text:', 'key:')) and f != 'text:non-utf8-bytes' for f in feats)
 
 
 def evaluate(ctx, drv, cases):
@@ -239,7 +278,7 @@ def evaluate(ctx, drv, cases):
             continue
         hyp = bool(m['hyp']) and o['vok'] and c['validate']
         feats = set(c.get('feats', []))
-        ctx.case(key=c['x'][:4000] if hyp else None, nontrivial=hyp and bool(feats & NONTRIVIAL_FEATS),
+        ctx.case(key=c['x'][:4000] if hyp else None, nontrivial=hyp and _nontrivial(feats),
                  kind='roundtrip/' + c['kind'] + ('/hyp' if hyp else ''))
         for f in feats:
             ctx.dist['feature:' + f] += 1
@@ -292,6 +331,195 @@ def evaluate(ctx, drv, cases):
                 ctx.corr_break('c05.roundtrip/second-read', case, _short(msec), _short(o.get('second')))
 
 
+
+# ---------------------------------------------------------------------------------------------- depth probes
+# Everything the reader accepts must be writable again: the nesting depth `read_stream` accepts is bounded by
+# CPython's recursion limit (RecursionError -> BdecodeError), the depth `dump` / `infohash` / `write` can export is
+# bounded by the same limit (RecursionError -> MetainfoError), and the two recursions have different frame costs.
+# See harness/impl/depthprobe.py for how a probe is run at a fixed number of remaining frames `B`.
+
+SL, SE = 1, 1          # leaf / entry slack of the unchanged code (Torf.Depth.Rel, theorem C05_depth_dump_read)
+WHERES = ['top', 'info', 'file', 'top-list', 'info-dict']
+PATTERNS = ['l', 'd', 'ld', 'dl', 'lld', 'ddl']
+LEAVES = ['empty', 'int', 'ascii', 'text', 'bytes', 'bigint']
+BIG_B = [960, 959]
+SMALL_B = [241, 240, 121, 120, 81, 80]
+
+
+def _d05a(case, observed, finding):
+    """D05a and nothing else: the reader accepted, the writer raised MetainfoError for lack of frames, and the
+    writer needs at most 2 frames (dump / infohash) resp. 3 frames (Torrent.read -> Torrent.write) more than the
+    reader needed for the same document, i.e. the document is within one nesting level (two via files) of the
+    deepest one the reader accepts at this stack depth."""
+    try:
+        if case.get('op') != 'depth' or observed.get('kind') != 'metainfo':
+            return False
+        nr, nw, B = observed['need_read'], observed['need_write'], observed['B']
+        lim = 2 if observed['api'] == 'mem' else 3
+        return nr <= B < nw and 0 < nw - nr <= lim
+    except (KeyError, TypeError):
+        return False
+
+
+MATCHERS['d05a_export_needs_more_frames'] = _d05a
+
+
+def gen_depth_families(ctx, n_small, n_big):
+    r = ctx.rng
+    fams = []
+
+    def fam(B, where=None, pattern=None, leaf=None, bush=False):
+        pat = pattern or (r.choice(PATTERNS) if r.random() < 0.7
+                          else ''.join(r.choice('ld') for _ in range(r.randint(3, 7))))
+        return {'op': 'depth', 'where': where or r.choice(WHERES), 'pattern': pat, 'leaf': leaf or r.choice(LEAVES),
+                'bush': r.randrange(1, 10 ** 6) if bush else None, 'multi': r.random() < 0.3, 'B': B,
+                'seed': r.randrange(10 ** 6), 'nrandom': 3}
+    # fixed part: the default-limit budgets, both parities, a text leaf (the writer's dearest leaf)
+    fixed = [('top', 'l', 'text'), ('info', 'd', 'bytes'), ('file', 'ld', 'empty'), ('info-dict', 'dl', 'int')]
+    for i in range(n_big):
+        w, p, l = fixed[i % len(fixed)]
+        fams.append(fam(BIG_B[(i // len(fixed)) % 2] if i >= len(fixed) else BIG_B[i % 2], w, p, l))
+    for i in range(n_small):
+        fams.append(fam(SMALL_B[i % len(SMALL_B)] if i < 2 * len(SMALL_B) else r.choice(SMALL_B) - r.choice([0, 0, 7, 20]),
+                        bush=r.random() < 0.35))
+    return fams
+
+
+def all_depth_families():
+    out = []
+    for B in SMALL_B[:4]:
+        for w in WHERES:
+            for p in PATTERNS:
+                for l in LEAVES:
+                    out.append({'op': 'depth', 'where': w, 'pattern': p, 'leaf': l, 'bush': None, 'multi': False,
+                                'B': B, 'seed': len(out), 'nrandom': 1})
+    return out
+
+
+def _run_depth_chunk(chunk):
+    import sys
+    torf = common.import_torf()
+    tmp = common.worker_dir()
+    old = sys.getrecursionlimit()
+    sys.setrecursionlimit(depthprobe.LIMIT)
+    try:
+        depthprobe.warm(torf, tmp)
+        out = []
+        for fam in chunk:
+            if fam == 'calibrate':
+                out.append(depthprobe.calibrate(torf, tmp))
+            else:
+                out.append(depthprobe.probe_family(torf, fam, tmp, fam.get('extra', ())))
+        return out
+    finally:
+        sys.setrecursionlimit(old)
+
+
+def evaluate_depth(ctx, drv, fams, cost=None):
+    chunks = [[f] for f in sorted(fams, key=lambda f: -f['B'])]
+    if cost is None:
+        chunks = [['calibrate']] + chunks
+    res = [o for ch in common.pmap(_run_depth_chunk, chunks) for o in ch]
+    if cost is None:
+        cost, res = res[0], res[1:]
+        ctx.notes['frame_costs_measured'] = cost
+    fams = [c[0] for c in chunks if c != ['calibrate']]
+    model_cost = cost if cost and not cost.get('_inconsistent') else None
+    if model_cost is None:
+        ctx.notes['frame_costs_note'] = ('the anchored converter functions could not be measured; depth probes ran '
+                                         'against the specification only')
+    reqs, index = [], []
+    for fi, (fam, pr) in enumerate(zip(fams, res)):
+        for d in sorted(pr['obs']):
+            x, _ = depthprobe.family_doc(fam, d)
+            nd = pr['needs'].get(d) or {}
+            index.append((fi, d, x))
+            if model_cost is not None:
+                reqs.append({'op': 'c05.depth', 'x': x.hex(), 'validate': True, 'vok': nd.get('vok', True), 'cd': None,
+                             'cost': {k: v for k, v in model_cost.items() if not k.startswith(('floor', '_'))},
+                             'B': pr['obs'][d]['B'], 'sl': SL, 'se': SE})
+    replies = drv.run(reqs) if reqs else [None] * len(index)
+    rel_reported = False
+    for (fi, d, x), m in zip(index, replies):
+        fam, pr = fams[fi], res[fi]
+        o, nd, R = pr['obs'][d], pr['needs'].get(d) or {}, pr['R']
+        B = o['B']
+        case = {'op': 'depth', 'family': {k: fam[k] for k in ('where', 'pattern', 'leaf', 'bush', 'multi', 'B')},
+                'depth': d, 'R': R, 'x': x.hex() if len(x) <= 20000 else None, 'kind': 'depth'}
+        kind = 'depth/%s/%s/B%s' % (fam['where'], fam['leaf'], 'default' if fam['B'] >= 900 else 'small')
+        hyp = (m is None or bool(m['hyp'])) and nd.get('vok', True)
+        ctx.case(key=('depth', fam['where'], fam['pattern'], fam['leaf'], fam['bush'], fam['multi'], B, d),
+                 nontrivial=hyp and o['read'] == 'ok' and d >= 16, kind=kind)
+        ctx.dist['depth:R-d=%s' % (R - d if R - d <= 8 else '>8')] += 1
+        if d == R:
+            ctx.sample({'case': {**case, 'x': None}, 'observed': o, 'frames_needed': nd,
+                        'model': None if m is None else {k: m.get(k) for k in ('readNeed', 'dumpNeed', 'infoNeed', 'rel')}},
+                       limit=9)
+        # --- specification: accepted by the reader (at budget B)  =>  writable, hashable, equal after re-reading
+        bad = []
+        if hyp and o['read'] == 'ok':
+            if o.get('dump') != 'same':
+                bad.append(('mem', 'read_stream(x) succeeded but dump() ' + (
+                    'raised' if ':' not in o.get('dump', '') else 'returned different bytes'), o.get('dump'), 'dump'))
+            elif o.get('second') != 'equal':
+                bad.append(('mem', 'read_stream(t.dump()) != t', o.get('second'), 'dump'))
+            if o.get('infohash') != 'same':
+                bad.append(('mem', 'read_stream(x) succeeded but infohash is not the SHA-1 of the info span',
+                            o.get('infohash'), 'hash'))
+        if hyp and o.get('readf') == 'ok' and o.get('writef') != 'same':
+            bad.append(('file', 'Torrent.read(f) succeeded but write(g) ' + (
+                'raised' if ':' not in o.get('writef', '') else 'wrote different bytes'), o.get('writef'), 'writef'))
+        for api, what, got, nk in bad:
+            observed = {'api': api, 'kind': got if got and ':' not in got else 'differs', 'B': B if api == 'mem' else B,
+                        'need_read': nd.get('read' if api == 'mem' else 'readf'), 'need_write': nd.get(nk),
+                        'detail': got}
+            ctx.violation(what + ' (nesting depth %d, reader accepts up to %d with %d frames left)' % (d, R, B), case,
+                          {'dump': 'the input bytes', 'infohash': 'sha1(info span)'}, observed,
+                          finding_matchers=MATCHERS)
+        if m is None:
+            continue
+        # --- the model with the measured costs must satisfy the proved theorem
+        if not m['rel']:
+            if not rel_reported:
+                rel_reported = True
+                ctx.corr_break('c05.depth/cost-relation', {'op': 'depth', 'cost': model_cost, 'sl': SL, 'se': SE},
+                               'Rel C 1 1 (writer needs no more frames per level than the reader, <= 1 more per leaf, '
+                               '<= 1 more on entry): hypothesis of C05_depth_dump_read', 'measured costs violate it')
+        elif hyp and 'ok' in m['read']:
+            if m.get('dumpSlack') != {'ok': x.hex()} or 'ok' not in m.get('infoBytes', {}):
+                ctx.machinery_error('model violates C05_depth_dump_read / C05_depth_infohash under Rel', case)
+                continue
+        # --- correspondence: outcome at budget B
+        mo = {'read': 'ok' if 'ok' in m['read'] else m['read']['err']}
+        io = {'read': o['read']}
+        if 'ok' in m['read'] and o['read'] == 'ok':
+            mo['dump'] = 'same' if m['dump'] == {'ok': x.hex()} else m['dump'].get('err', 'differs')
+            mo['infohash'] = 'same' if 'ok' in m['infoBytes'] else m['infoBytes']['err']
+            io['dump'] = o['dump'].split(':')[0]
+            io['infohash'] = o['infohash'].split(':')[0]
+        mo['readf'] = 'ok' if 'ok' in m['readFile'] else m['readFile']['err']
+        io['readf'] = o['readf']
+        if 'ok' in m['readFile'] and o['readf'] == 'ok':
+            mo['writef'] = 'same' if m['writeFile'] == {'ok': x.hex()} else m['writeFile'].get('err', 'differs')
+            io['writef'] = o['writef'].split(':')[0]
+        if mo != io and B >= 60:
+            ctx.corr_break('c05.depth/outcome', case, mo, io)
+            continue
+        # --- correspondence: frames needed (only where the recursion dominates the input-independent rest)
+        if nd and d >= 16 and 'read' in nd and m.get('readNeed') is not None:
+            mn = {'read': m['readNeed'], 'readf': m['readNeed'] + model_cost['rdf']}
+            im = {'read': nd['read'], 'readf': nd.get('readf')}
+            if 'dumpNeed' in m and 'dump' in nd:
+                mn.update({'dump': m['dumpNeed'], 'writef': m['dumpNeed'] + model_cost['wrf']})
+                im.update({'dump': nd['dump'], 'writef': nd.get('writef')})
+                if fam['where'] not in ('top', 'top-list'):
+                    mn['hash'] = m['infoNeed']
+                    im['hash'] = nd['hash']
+            if mn != im:
+                ctx.corr_break('c05.depth/frames', case, mn, im)
+    return cost
+
+
 def _short(x, n=600):
     s = repr(x)
     return s if len(s) <= n else s[:n] + '…'
@@ -308,7 +536,19 @@ def run(ctx, drv):
         'flatbencode 0.2.1 is modelled in full (Bencode.parse / Bencode.ser)',
         'Python str holding lone surrogates is outside PyVal (cannot come out of a strict UTF-8 decode)',
         'SHA-1 is a parameter: the model returns the bytes that are hashed, the harness applies hashlib.sha1',
+        'depth probes: CPython 3.12 counts exactly the Python-level frames against sys.getrecursionlimit(); every '
+        'probe runs in a fresh thread at recursion limit 1000, padded so that the torf call has exactly B frames left '
+        '(B in {960, 959} = default limit, small caller; {241, 240, 121, 120, 81, 80, ...} = deep caller), on warm abc '
+        'caches; frames needed are the maximum call depth under sys.setprofile at an unlimited budget',
+        'the frame costs of decode_value/decode_list/decode_dict, encode_value/encode_list/encode_dict, the str / '
+        'datetime converters, ABCMeta.__instancecheck__, flatbencode.encode and the API entry points are parameters of '
+        'the depth model (Torf.Depth.Cost), measured on the code under test at the start of every run; B >= 60 covers '
+        'the input-independent frames of the parser, validate() and the setters',
+        'the unicodedata module of the running Python (Unicode %s) is used to generate and label text, never to '
+        'compute an expected result' % __import__('unicodedata').unidata_version,
     ]
+    import time
+    t_start = time.time()
     corpus = _load_corpus(ctx)
     total = ctx.n(2500, 40000)
     first = True
@@ -319,12 +559,23 @@ def run(ctx, drv):
         first = False
         if ctx.violations:
             break
+    t_docs = time.time()
+    if not ctx.violations:
+        fams = gen_depth_families(ctx, ctx.n(30, 160), ctx.n(4, 24))
+        if ctx.thorough:
+            fams += all_depth_families()
+        evaluate_depth(ctx, drv, fams)
+    ctx.notes['phase_seconds'] = {'documents': round(t_docs - t_start, 1), 'depth_probes': round(time.time() - t_docs, 1)}
     ctx.exhaustive = False
     ctx.notes['exhaustive_scope'] = ('every byte string of length <= %d over {d,l,e,i,1,0,:,-,a} through the '
                                      'parser model' % (5 if ctx.thorough else 4))
 
 
 def search(ctx, drv):
+    if any(str(b.get('op', '')).startswith('c05.depth') for b in ctx.corr_breaks if isinstance(b, dict)):
+        evaluate_depth(ctx, drv, gen_depth_families(ctx, ctx.n(60, 200), ctx.n(8, 24)))
+        if ctx.violations:
+            return
     for _ in range(2):
         evaluate(ctx, drv, gen_cases(ctx, ctx.n(2500, 5000), small_scope=False))
         if ctx.violations:
@@ -333,6 +584,13 @@ def search(ctx, drv):
 
 def replay(ctx, drv, rp):
     c = dict(rp['case'])
+    if c.get('op') == 'depth':
+        if 'family' not in c:
+            return {'fails': False, 'note': 'not a document case'}
+        fam = {'op': 'depth', **c['family'], 'seed': 0, 'nrandom': 0, 'extra': [c['depth']]}
+        evaluate_depth(ctx, drv, [fam])
+        return {'fails': bool(ctx.violations or ctx.corr_breaks), 'violations': ctx.violations,
+                'corr_breaks': ctx.corr_breaks}
     c.setdefault('kind', 'replay')
     c.setdefault('feats', [])
     if c.get('validate') is None:
